@@ -20,6 +20,7 @@ from mirsmt.interp import Agg, Bool, Cell, Int, Lazy, Obj, Ref, Unsupported, UNI
 from mirsmt.oblig import Prover
 from mirsmt.summaries import err, ok
 
+GAS_AT = z3.Function("min_gas_cost_of_instruction_at", z3.BitVecSort(64), z3.BitVecSort(64))
 BAD_JUMP = ("InvalidOffsetForJump", "InvalidJumpTarget", "NonExistentJumpTarget", "NoConcreteJumpDestination")
 
 
@@ -136,7 +137,18 @@ def main_loop(eng, havoc_ip=False):
         return err(ty, located)
 
     def min_gas(ctx, a, ty, c):
-        return Int(z3.BitVec("gas_cost", 64), 64)
+        # the cost is a function of WHICH instruction is asked (its offset in the code): charging for another instruction
+        # than the one that was executed is then visible in the gas balance (C03 O9)
+        try:
+            from mirsmt.containers import _op_of
+            at = _op_of(ctx, a[0]).at
+            at = at if z3.is_bv(at) else z3.BitVecVal(int(at), 64)
+            if at.size() != 64:
+                at = z3.ZeroExt(64 - at.size(), at)
+            ctx.events.append(("gas_of", at))
+            return Int(GAS_AT(at), 64)
+        except Exception:
+            return Int(z3.BitVec("gas_cost", 64), 64)
 
     def kill(ctx, a, ty, c):
         ctx.events.append(("kill",))
